@@ -311,6 +311,12 @@ def path_atoms(fn, ref, truth, s, depth=0):
         ai = fn.get(a) if isinstance(a, str) else None
         if bz == 0 and ins.pred in ('ne', 'eq') and ai is not None and ai.op == 'zext' and ai.x.get('sbits') == 1:
             return path_atoms(fn, ai.o[0], truth if ins.pred == 'ne' else (not truth), s, depth + 1)
+        if bz == 0 and ins.pred in ('ne', 'eq') and isinstance(a, str):
+            # a flag variable that holds a widened truth value on this path (left = (cmp(...) < 0))
+            la = s.lookup(_k(strip_bitcasts(fn, a)))
+            lai = fn.get(la) if isinstance(la, str) else None
+            if lai is not None and lai is not ai and lai.op == 'zext' and lai.x.get('sbits') == 1:
+                return path_atoms(fn, lai.o[0], truth if ins.pred == 'ne' else (not truth), s, depth + 1)
         if bz == 0 and ins.pred in ('ne', 'eq') and ai is not None and ai.op in ('and', 'or') and ai.ty != 'i1':
             # truth values combined with the bitwise operators on 0/1 integers
             from .facts import _bool01
